@@ -1,7 +1,7 @@
 (** C11: every admin endpoint requires a valid session or credentials once a
     user exists.  Only statements here; proofs live in Proofs/AuthHttp.v and
     Proofs/Routes.v (the latter over the generated table Gen/Routes.v). *)
-From AGH Require Import Base.Run Model.Session Model.AuthHttp Proofs.AuthHttp Proofs.AuthCreds Proofs.AuthGlob Proofs.AuthMethod Proofs.AuthReload Proofs.Routes Gen.Routes.
+From AGH Require Import Base.Run Model.Session Model.AuthHttp Model.AuthLife Proofs.AuthHttp Proofs.AuthCreds Proofs.AuthGlob Proofs.AuthMethod Proofs.AuthReload Proofs.AuthLife Proofs.Routes Gen.Routes.
 From stdpp Require Import gmap.
 Local Open Scope Z_scope.
 
@@ -408,3 +408,198 @@ Example C11_reloaded_premises_satisfiable :
   snd (apply_chain (http_register_chain str_POST) ex_handler ex_reload_env w (ex_req (CTok (hex_encode [1]%N)))) = AHandler tt.
 Proof. exact reloaded_premises_satisfiable. Qed.
 Print Assumptions C11_reloaded_premises_satisfiable.
+
+(** * Round 5 (I): the account set across saves and restarts
+
+    [life]: the users: list of the configuration file and the running
+    process (firstRun, Auth.users, config.Users); operations [OBoot] (run()
+    up to web.start: detectFirstRun, parseConfig, the start-up save,
+    initUsers), [OConfigure] (the body of handleInstallConfigure with each of
+    its outcomes), [OWrite] (config.write, succeeding or not), [OStop].
+    [ul] is usersList, [k] the start-up facts of round 2. *)
+
+(** The code's usersList returns the list ([make] of the full length, then
+    [copy]); with a zero length nothing is copied. *)
+Theorem C11_users_list_is_copy : forall us, users_list us = us.
+Proof. exact users_list_id. Qed.
+Print Assumptions C11_users_list_is_copy.
+
+(** A successful save puts exactly the accounts of the running process into
+    the file, along any history. *)
+Theorem C11_saved_users_are_memory_users : forall ul k, (forall us, ul us = us) ->
+  forall f ops p us,
+  let st := run_ops ul k {| l_file := f; l_proc := None |} ops in
+  l_proc st = Some p -> p_auth p = Some us -> l_file (do_write ul true st) = Some us.
+Proof. exact saved_users_are_memory_users. Qed.
+Print Assumptions C11_saved_users_are_memory_users.
+
+(** The next start after a stop has exactly the accounts of the file. *)
+Theorem C11_boot_restores_users : forall ul k fus,
+  exists p, l_proc (do_boot ul k true true {| l_file := Some fus; l_proc := None |}) = Some p /\
+            p_auth p = Some fus /\ p_first_run p = false /\
+            l_file (do_boot ul k true true {| l_file := Some fus; l_proc := None |}) = Some fus.
+Proof. exact boot_restores_users. Qed.
+Print Assumptions C11_boot_restores_users.
+
+(** Once the file lists an account: after ANY history (saves that succeed or
+    fail, stops and starts with the session database in any state, further
+    runs of the wizard's handler with any outcome) a process that serves
+    requests requires authentication. *)
+Theorem C11_persisted_then_required : forall ul k, (forall us, ul us = us) -> boot_code_ok k = true ->
+  forall st ops p e, inv st -> persisted st ->
+  l_proc (run_ops ul k st ops) = Some p -> env_of p e -> e_auth_required e = true.
+Proof. exact persisted_then_required. Qed.
+Print Assumptions C11_persisted_then_required.
+
+(** From nothing: any history in which the wizard completed once.  Every
+    chain with optionalAuth in it refuses every unauthenticated request for a
+    non-public path in whatever process is running at the end. *)
+Theorem C11_admin_survives_save_restart : forall ul k, (forall us, ul us = us) -> boot_code_ok k = true ->
+  forall (A R : Type) f ops1 n h ops2 p e ws (w : world A) r,
+  l_proc (run_ops ul k {| l_file := f; l_proc := None |} ops1) <> None ->
+  l_proc (run_ops ul k {| l_file := f; l_proc := None |} (ops1 ++ OConfigure n h CfgOk :: ops2)) = Some p ->
+  env_of p e -> In WOptionalAuth ws ->
+  is_public (r_path r) = false -> authenticated e (w_sess w) r = false ->
+  exists w' (a : answer R), blocks (apply_chain ws) e w r w' a /\ session_effect e w r w'.
+Proof. exact created_then_guarded. Qed.
+Print Assumptions C11_admin_survives_save_restart.
+
+Theorem C11_configured_stays_guarded : forall ul k, (forall us, ul us = us) -> boot_code_ok k = true ->
+  forall (A R : Type) u fus ops p e ws (w : world A) r,
+  l_proc (run_ops ul k {| l_file := Some (u :: fus); l_proc := None |} ops) = Some p ->
+  env_of p e -> In WOptionalAuth ws ->
+  is_public (r_path r) = false -> authenticated e (w_sess w) r = false ->
+  exists w' (a : answer R), blocks (apply_chain ws) e w r w' a /\ session_effect e w r w'.
+Proof. exact configured_then_guarded. Qed.
+Print Assumptions C11_configured_stays_guarded.
+
+Example C11_life_premises_satisfiable :
+  boot_code_ok ok_code = true /\
+  l_proc (run_ops users_list ok_code life0 [OBoot true true]) <> None /\
+  run_ops users_list ok_code life0 ex_history =
+    {| l_file := Some [ex_admin];
+       l_proc := Some {| p_first_run := false; p_auth := Some [ex_admin]; p_conf_users := [] |} |} /\
+  match final_env users_list ex_history with
+  | Some e => e_auth_required e = true /\
+              snd (apply_chain (http_register_chain str_GET) ex_handler e ex_world anon_get) = AStatus 403
+  | None => False
+  end.
+Proof. exact life_premises_satisfiable. Qed.
+Print Assumptions C11_life_premises_satisfiable.
+
+(** A usersList that returns an empty copy ([make] with length 0): refused
+    as long as the process runs; [users: []] in the file after the wizard's
+    own save; after the restart the anonymous GET reaches the handler. *)
+Example C11_life_empty_writer_refuted :
+  let ul := users_list_gen (fun _ => 0%nat) in
+  match final_env ul [OBoot true true; OConfigure (fst ex_admin) (snd ex_admin) CfgOk] with
+  | Some e => snd (apply_chain (http_register_chain str_GET) ex_handler e ex_world anon_get) = AStatus 403
+  | None => False
+  end /\
+  run_ops ul ok_code life0 ex_history =
+    {| l_file := Some []; l_proc := Some {| p_first_run := false; p_auth := Some []; p_conf_users := [] |} |} /\
+  match final_env ul ex_history with
+  | Some e => e_auth_required e = false /\
+              authenticated e (w_sess ex_world) anon_get = false /\
+              snd (apply_chain (http_register_chain str_GET) ex_handler e ex_world anon_get) = AHandler tt
+  | None => False
+  end.
+Proof. exact life_empty_writer_refuted. Qed.
+Print Assumptions C11_life_empty_writer_refuted.
+
+(** * Round 5 (J): built in one world, called in another
+
+    A wrapper constructor gets the world at the time it is called (when the
+    route is registered) and returns a handler, which gets the world at the
+    time of the request.  The constructors of the code use the second only. *)
+Theorem C11_wrappers_read_state_at_request_time : forall (A R : Type) x,
+  request_time (A := A) (R := R) (apply_wrapper_at x).
+Proof. exact (@wrappers_read_state_at_request_time). Qed.
+Print Assumptions C11_wrappers_read_state_at_request_time.
+
+Theorem C11_chain_built_anywhere : forall (A R : Type) ws ew1 ew2 (h : handler A R),
+  apply_chain_at ws ew1 h = apply_chain_at ws ew2 h.
+Proof. exact (@chain_built_anywhere). Qed.
+Print Assumptions C11_chain_built_anywhere.
+
+(** Any chain of constructors that read the state at request time only. *)
+Theorem C11_chain_request_time : forall (A R : Type) (Ws : list (@wrapper_at A R)),
+  Forall request_time Ws -> forall ew1 ew2 h, chain_at Ws ew1 h = chain_at Ws ew2 h.
+Proof. exact (@chain_request_time). Qed.
+Print Assumptions C11_chain_request_time.
+
+(** The first start: the wizard's routes are built while firstRun is true.
+    Once it is false, in the same process, without re-registration, a chain
+    that starts with preInstall answers 403 and runs nothing, whatever
+    follows in the chain and whatever the request. *)
+Theorem C11_install_chain_closed_after_setup : forall (A R : Type) ws ew e (w : world A) r,
+  e_first_run e = false -> blocks (apply_chain_at (A:=A) (R:=R) (WPreInstall :: ws) ew) e w r w (AStatus 403).
+Proof. exact (@pre_install_chain_closed). Qed.
+Print Assumptions C11_install_chain_closed_after_setup.
+
+(** ... and a chain with optionalAuth in it, built before the account
+    existed, refuses once it exists. *)
+Theorem C11_guarded_chain_built_anywhere : forall (A R : Type) ws ew e (w : world A) r,
+  In WOptionalAuth ws ->
+  e_auth_required e = true -> is_public (r_path r) = false -> authenticated e (w_sess w) r = false ->
+  exists w' (a : answer R), blocks (apply_chain_at ws ew) e w r w' a /\ session_effect e w r w'.
+Proof. exact (@guarded_chain_built_anywhere). Qed.
+Print Assumptions C11_guarded_chain_built_anywhere.
+
+Example C11_transition_premises_satisfiable :
+  e_first_run ex_env = false /\ e_auth_required ex_env = true /\
+  snd (apply_chain_at [WPreInstall; WEnsure str_POST] env_first_run ex_handler env_first_run ex_world anon_post_configure) = AHandler tt /\
+  snd (apply_chain_at [WPreInstall; WEnsure str_POST] env_first_run ex_handler ex_env ex_world anon_post_configure) = AStatus 403.
+Proof. exact transition_premises_satisfiable. Qed.
+Print Assumptions C11_transition_premises_satisfiable.
+
+(** A preInstall (an optionalAuth) that decides when it is built: the
+    wizard's configure call (a guarded GET) stays open after the wizard has
+    completed in the process that was started for it. *)
+Example C11_wrap_time_decision_refuted :
+  ~ request_time (@pre_install_at_wrap nat unit) /\
+  authenticated ex_env (w_sess ex_world) anon_post_configure = false /\
+  snd (chain_at [pre_install_at_wrap; apply_wrapper_at (WEnsure str_POST)] env_first_run ex_handler
+         ex_env ex_world anon_post_configure) = AHandler tt /\
+  snd (chain_at [apply_wrapper_at WPostInstall; optional_auth_at_wrap; apply_wrapper_at (WEnsure str_GET)] env_first_run ex_handler
+         ex_env ex_world anon_get) = AHandler tt /\
+  snd (apply_chain_at (http_register_chain str_GET) env_first_run ex_handler ex_env ex_world anon_get) = AStatus 403.
+Proof. exact wrap_time_decision_refuted. Qed.
+Print Assumptions C11_wrap_time_decision_refuted.
+
+(** The routes of the current source after set-up (re-checked each run): a
+    pattern of the wizard (/install.html, /control/install/...) has a chain
+    that starts with preInstall; every other route is one of the five open
+    ones (login, the two mobileconfig generators, /dns-query[/]) with exactly
+    its chain, or starts with preInstall, or is guarded. *)
+Theorem C11_routes_after_setup :
+  forallb (route_after_setup_ok Gen.Routes.reg_method) Gen.Routes.routes = true.
+Proof. exact all_routes_after_setup. Qed.
+Print Assumptions C11_routes_after_setup.
+
+Theorem C11_routes_after_setup_sound : forall (A R : Type) rm rt,
+  route_after_setup_ok rm rt = true ->
+  (install_pattern rt = false /\ open_exception rt = true) \/
+  (forall ew e (w : world A) r, e_first_run e = false ->
+     blocks (apply_chain_at (A:=A) (R:=R) (chain_of rm rt) ew) e w r w (AStatus 403)) \/
+  (forall ew e (w : world A) r,
+     e_auth_required e = true -> is_public (r_path r) = false -> authenticated e (w_sess w) r = false ->
+     exists w' (a : answer R), blocks (apply_chain_at (chain_of rm rt) ew) e w r w' a /\ session_effect e w r w').
+Proof. exact (@after_setup_sound). Qed.
+Print Assumptions C11_routes_after_setup_sound.
+
+(** The wrapper constructors of the current source (postInstall, preInstall,
+    optionalAuth, ensure and their other forms) mention no package-level
+    variable and call nothing but each other outside the function literals
+    they return (tools/routes, re-checked each run): what the model's
+    [apply_wrapper_at] assumes. *)
+Theorem C11_wrappers_code : wrappers_lazy_ok Gen.Routes.wrappers_lazy = true.
+Proof. exact wrappers_code_ok. Qed.
+Print Assumptions C11_wrappers_code.
+
+(** The wizard's last call in the current source has the skeleton the model's
+    [do_configure] follows, and globalContext.firstRun has no writer besides
+    it and setupContext (tools/routes, re-checked each run). *)
+Theorem C11_configure_code : configure_code_ok Gen.Routes.configure_code = true.
+Proof. exact configure_code_is_ok. Qed.
+Print Assumptions C11_configure_code.
